@@ -80,22 +80,24 @@ func (t *tree) removeAll(p string) {
 // ---- simulated http.FileSystem
 
 type simFS struct {
-	t       *tree
-	tape    *sim.Tape
-	faultIn int // calls until a fault fires (-1: none)
-	fired   map[string]int
-	lastHit bool // a fault fired during the current query
+	t              *tree
+	tape           *sim.Tape
+	faultIn        int // calls until a fault fires (-1: none)
+	fired          map[string]int
+	lastHit        bool // a fault fired during the current query
+	opened, closed int  // file handles handed out / closed again
 	// chunk: files hand out at most this many bytes per Read (0: as many as asked for) - a reader may
 	// always return fewer bytes than requested
 	chunk int
 }
 
 type simFile struct {
-	fsys  *simFS
-	name  string
-	isDir bool
-	r     *bytes.Reader
-	size  int64
+	closedOnce bool
+	fsys       *simFS
+	name       string
+	isDir      bool
+	r          *bytes.Reader
+	size       int64
 }
 
 var errSimFS = errors.New("INJ-fs: simulated file system failure")
@@ -120,15 +122,23 @@ func (f *simFS) Open(name string) (http.File, error) {
 	}
 	p := Normalize(name)
 	if b, ok := f.t.files[p]; ok && IsCanonical(name) {
+		f.opened++
 		return &simFile{fsys: f, name: p, r: bytes.NewReader([]byte(b)), size: int64(len(b))}, nil
 	}
 	if f.t.dirs[p] && IsCanonical(name) {
+		f.opened++
 		return &simFile{fsys: f, name: p, isDir: true, r: bytes.NewReader(nil)}, nil
 	}
 	return nil, &fs.PathError{Op: "open", Path: name, Err: fs.ErrNotExist}
 }
 
-func (s *simFile) Close() error { return nil }
+func (s *simFile) Close() error {
+	if !s.closedOnce {
+		s.closedOnce = true
+		s.fsys.closed++
+	}
+	return nil
+}
 func (s *simFile) Read(p []byte) (int, error) {
 	if s.isDir {
 		return 0, &fs.PathError{Op: "read", Path: s.name, Err: errors.New("is a directory")}
@@ -167,8 +177,8 @@ func (i simInfo) Sys() any           { return nil }
 // ---- loaders under test
 
 type lut struct {
-	links map[string]bool // symbolic links made in the scratch directory (never regular files for the loader)
-	kind   string // inmem, os, httpfs, embedfs
+	links  map[string]bool // symbolic links made in the scratch directory (never regular files for the loader)
+	kind   string          // inmem, os, httpfs, embedfs
 	loader jet.Loader
 	model  *tree
 	mem    *jet.InMemLoader
@@ -229,18 +239,20 @@ func c19Spelling(t *sim.Tape, p string) string {
 }
 
 type c19 struct {
+	luts         []*lut
 	memberPanics int // panics raised by a panicOnceLoader so far
-	env   *sim.Env
-	t     *sim.Tape
-	nVer  int
-	hist  []string
-	nQ    int
-	scrat []string
-	cwd   string // working directory to restore (set when a run changed it)
+	env          *sim.Env
+	t            *sim.Tape
+	nVer         int
+	hist         []string
+	nQ           int
+	scrat        []string
+	cwd          string // working directory to restore (set when a run changed it)
 }
 
 func (c *c19) newLut(kind string) *lut {
 	l := &lut{kind: kind, model: newTree()}
+	c.luts = append(c.luts, l)
 	switch kind {
 	case "inmem":
 		l.mem = jet.NewInMemLoader()
@@ -775,6 +787,10 @@ func RunC19(env *sim.Env) {
 			env.Stat("probe:multi_nested_in_multi", 1)
 		}
 		m := multi.NewLoader(loaders...)
+		// a second stack built from the very same slice of loaders (per-request stacks over one shared
+		// list): whatever happens to the first one later, this one keeps its construction order
+		twin := multi.NewLoader(loaders...)
+		twinOwners := append([]*lut(nil), luts[:nInitial]...)
 		active := luts[:nInitial]
 		kinds := []string{}
 		for _, l := range luts {
@@ -868,9 +884,33 @@ func RunC19(env *sim.Env) {
 				}
 			}
 		}
+		// the second stack over the same slice answers as constructed (only when the first loaders are not
+		// wrapped in an inner Multi, whose later additions are shared by design)
+		if inner == nil {
+			var known []string
+			for _, l := range twinOwners {
+				for f := range l.model.files {
+					known = append(known, f)
+				}
+			}
+			sort.Strings(known)
+			for i := 0; i < 3 && len(known) > 0; i++ {
+				p := known[t.Choose(len(known))]
+				c.hist = append(c.hist, "twin-stack-query("+p+")")
+				c.query("multi", twin, twinOwners, p, p, nil)
+			}
+			env.Stat("probe:second_stack_built_from_the_same_slice_queried", 1)
+		}
 	}
 	env.Stat("counters:queries", int64(c.nQ))
 	env.Stat("probe:config_"+[]string{"inmem", "os_real_scratch_dir", "httpfs_simfs", "embedfs_exhaustive", "multi_stack", "httpfs_over_real_http_Dir"}[config], 1)
+	// every file handle the loader took from the (simulated) file system was given back: a long-lived
+	// process probes directories and missing files millions of times
+	for _, l := range c.luts {
+		if l.sfs != nil && l.sfs.opened != l.sfs.closed {
+			env.Violate("contract", "httpfs:file-handles-left-open", "the httpfs loader opened %d files of its file system and closed %d\nhistory: %s", l.sfs.opened, l.sfs.closed, strings.Join(c.hist, " "))
+		}
+	}
 	env.Res.Nontrivial = c.nQ > 0
 	env.Res.Sig = fmt.Sprintf("%016x", sim.HashString(strings.Join(c.hist, ";")+fmt.Sprint(config, c.nQ)))
 	env.Res.Sample = fmt.Sprintf("config=%d queries=%d history: %s", config, c.nQ, sim.Clip(strings.Join(c.hist, " "), 1500))
